@@ -4,9 +4,10 @@ CONSTANTS
  MaxQ = 23
  MaxK = 7
  Margin = 4
- Variants <- V_com2v
- NaiveMaxP = 0
+ Variants <- A_com
+ NaiveMaxP = 5
  Mode = "acc"
  CheckArith = FALSE
+ SortedBases = TRUE
 INVARIANTS BlockIsDefinition Sound Complete Shape Elements Emit
 CHECK_DEADLOCK FALSE
